@@ -138,7 +138,7 @@ def part_b(ctx, rnd):
     if ctx.thorough:
         ctx.tlc(SD, "RunQueue", "MC_RunQueue_big.cfg", timeout=3000, label="(b) exhaustive: refinement, <= 4 containers")
         ctx.tlc(SD, "RunQueue", "MC_RunQueue_edge.cfg", timeout=1800, label="(b) exhaustive: running/late/priority 0, termination")
-        scns, _ = ctx.gen(SD, "RunQueue", "Gen_RunQueue_big.cfg", timeout=3000, label="(b) snapshot emission <= 3 containers")
+        scns, _ = ctx.gen(SD, "RunQueue", "Gen_RunQueue_big.cfg", timeout=3000, label="(b) snapshot emission <= 3 containers, priorities 1-2")
         s2, _ = ctx.gen(SD, "RunQueue", "Gen_RunQueue_edge.cfg", timeout=1800, label="(b) snapshot emission, edge cases")
         for s in s2:
             s["id"] += 10 ** 7
